@@ -64,6 +64,8 @@ pub fn run(rest: &str) -> String {
     let mut fs = MemFs::default();
     let mut host = AnalysisHost::new();
     let mut root: Option<String> = None;
+    // files whose text the host has been given explicitly (edit / editroot / root)
+    let mut known: std::collections::HashSet<String> = std::collections::HashSet::new();
     let empty = vec![];
     for op in spec["ops"].as_array().unwrap_or(&empty) {
         let kind = op[0].as_str().unwrap_or("");
@@ -72,6 +74,7 @@ pub fn run(rest: &str) -> String {
         match kind {
             // the client edits a file: file system and host learn the text, the current root is re-selected
             "edit" => {
+                known.insert(path.clone());
                 let text = op[2].as_str().unwrap_or("").to_string();
                 fs.files.insert(fp.clone(), text.clone());
                 let id = fs.assign_or_get_file_id(fp);
@@ -83,6 +86,7 @@ pub fn run(rest: &str) -> String {
             }
             // like the LSP server: the edited document becomes the root
             "editroot" => {
+                known.insert(path.clone());
                 let text = op[2].as_str().unwrap_or("").to_string();
                 fs.files.insert(fp.clone(), text.clone());
                 let id = fs.assign_or_get_file_id(fp);
@@ -100,8 +104,18 @@ pub fn run(rest: &str) -> String {
                     host.set_root_file(&mut fs, rid);
                 }
             }
+            // `set_root_file` alone, for a file whose text the host has been given before (by an earlier edit or as an include):
+            // nothing is sent again
+            "rootbare" => {
+                if fs.files.contains_key(&fp) && known.contains(&path) {
+                    let id = fs.assign_or_get_file_id(fp);
+                    host.set_root_file(&mut fs, id);
+                    root = Some(path);
+                }
+            }
             "root" => {
                 if let Some(text) = fs.files.get(&fp).cloned() {
+                    known.insert(path.clone());
                     let id = fs.assign_or_get_file_id(fp);
                     host.set_file_content(id, Arc::from(text.as_str()));
                     host.set_root_file(&mut fs, id);
